@@ -14,6 +14,7 @@
   then taken to ERROR by its watcher, which may show in the reply's state already.
 -/
 import ControlModel.Model.Transition
+import ControlModel.Model.DeployAttempts
 
 namespace Trans
 open EnvM
@@ -129,5 +130,68 @@ def openCorner (h : String) : Bool :=
     `some "-"` = violated elsewhere (which includes the four repaired corners). -/
 def judge (sc : Scenario) (os : List Obs) : Option String :=
   (judgeAll sc os).map (fun h => if openCorner h then h else "-")
+
+/-! ### DEPLOY with offers that come late
+
+  The offers rounds are part of the environment, like the tasks' scripts. The deployment is decided on the LAST round
+  that took place (one round per attempt the master saw): a task whose machine's offer is missing from that round had no
+  machine to start on — for the property exactly a task whose role names a machine that no agent has (`nohost`). So the
+  clauses above are evaluated on the workflow "as offered" in that round: every critical task's machine on offer and
+  every critical task coming up ⇒ DEPLOYED must be reported, and a NON-critical task's missing machine must not matter
+  (where it does: corner deploy_noncritical_blocks). On top of that the attempts themselves must make sense: no more
+  than the limit; the whole deployment is requested again only after a round in which a critical task's machine was
+  missing (a repeated request launches every task a second time); and the core does not give up before the limit while
+  a critical task's machine is still missing. (The real core does give up early when the verdict of a round is lost on its
+  way to acquireTasks: finding deploy_verdict_lost.) -/
+
+/-- The tasks launched in the last attempt. -/
+def lastAttempt (att : List (List Nat)) : List Nat := att.getLast?.getD []
+
+/-- The attempt that launched `l` left a critical descriptor unlaunched. -/
+def critUnlaunched (ds : List Desc) (l : List Nat) : Bool :=
+  (indexed ds).any (fun p => p.2.critical && !l.contains p.1)
+
+/-- Every attempt but the last left a critical descriptor unlaunched. -/
+def retriesJustified (ds : List Desc) : List (List Nat) → Bool
+  | [] => true
+  | [_] => true
+  | l :: l' :: rest => critUnlaunched ds l && retriesJustified ds (l' :: rest)
+
+/-- The last of `n` offers rounds. -/
+def lastRound (rs : List Round) (n : Nat) : Round := rs.getD (n - 1) []
+
+/-- `n` attempts were made on the rounds `rs`. -/
+def attemptsOk (ds : List Desc) (rs : List Round) (n : Nat) : Bool :=
+  decide (n ≤ attemptLimit) &&
+  (List.range (n - 1)).all (fun i => critMissing ds (rs.getD i [])) &&
+  (!critMissing ds (lastRound rs n) || n == attemptLimit)
+
+/-- The workflow as offered in the last of `n` rounds: a task whose machine's offer is missing has no machine. -/
+def OWorkflow.asOffered (w : OWorkflow) (n : Nat) : Workflow :=
+  { calls := w.calls,
+    tasks := w.tasks.map (fun t => (t.critical, if t.desc.offered (lastRound w.rounds n) then t.launch else .nohost)),
+    notifyLost := w.notifyLost }
+
+/-- The environment of the workflow drops the verdict of the last of `n` attempts. -/
+def lostLast (w : OWorkflow) (n : Nat) : Bool :=
+  match w.verdictLost with
+  | some k => k + 1 == n
+  | none => false
+
+/-- Spec.C02 on an observed run of a scenario with scripted offers rounds. A violation in a scenario whose environment
+    drops the verdict of the last attempt made is attributed to that (finding deploy_verdict_lost). -/
+def judgeO (sc : OScenario) : List Obs → Option String
+  | [] => none
+  | o :: os =>
+    match o.att with
+    | none => some "-"
+    | some att =>
+      let v :=
+        if attemptsOk sc.wf.descs sc.wf.rounds att.length then
+          judge { wf := sc.wf.asOffered att.length, configure := sc.configure, steps := sc.steps } (o :: os)
+        else some "-"
+      match v with
+      | none => none
+      | some h => if lostLast sc.wf att.length then some "deploy_verdict_lost" else some h
 
 end Trans
